@@ -6,4 +6,6 @@ import NormModel.Properties.C11
 #print axioms Norm.C11.float_valid
 #print axioms Norm.C11.char_valid
 #print axioms Norm.C11.char_escape_valid
+#print axioms Norm.C11.char_octal_valid
+#print axioms Norm.C11.char_hex_valid
 #print axioms Norm.C11.string_valid
